@@ -141,6 +141,19 @@ func c03BooleanBody(c *drv.Ctx, S, C Paths, sb Path) {
 					}
 				})
 			}
+			if C != nil {
+				// closed and open subjects in one engine: the clip set doubles as the open subject
+				guard(c, "Clipper64.ExecuteOC(closed+open subjects)", false, sub, func() {
+					e := clipper.NewClipper64()
+					e.AddPaths(S, clipper.Subject, false)
+					e.AddPaths(C, clipper.Subject, true)
+					e.AddPaths(S, clipper.Subject, true)
+					var cl, op Paths
+					if !e.ExecuteOC(ct, fr, &cl, &op) {
+						c.Fail("execute-false", "Clipper64.ExecuteOC(closed+open subjects)", "ExecuteOC(ct=%d, fr=%d) with closed and open subjects returned false; %s", ct, fr, args())
+					}
+				})
+			}
 			guard(c, "Clipper64.Execute", false, sub, func() {
 				e := clipper.NewClipper64()
 				e.AddPath(sb, clipper.Subject, false)
